@@ -25,7 +25,7 @@ INFO = {
     ],
 }
 EXPECTED_PROBES = ("register_after_dispatch", "stop_in_middle", "equal_priority_run", "same_callable_twice",
-                   "dispatch_unregistered_event", "own_empty_dispatcher_installed")
+                   "dispatch_unregistered_event", "own_empty_dispatcher_installed", "config_event_listeners")
 
 EVENTS = ["ev.a", "ev.b", "ev.never"]
 PRIOS = [-5, 0, 10]
@@ -49,7 +49,11 @@ def gen(S, tier):
         ops.append(["run", w.weighted([("go", 3), ("go --version", 2)])])
         # the application installs a dispatcher of its own (still empty) in place of the one the default
         # configuration filled: its own listeners are then all there is
-        return {"class": "app", "ops": ops, "own_dispatcher": S("extension").chance(0.25)}
+        x = S("extension")
+        own = x.chance(0.25)
+        # listeners for the event the application dispatches once, while it is being built
+        cl = [[x.pick(PRIOS), x.weighted([("pass", 4), ("stop", 1)])] for _ in range(x.randint(1, 3))] if x.chance(0.3) else []
+        return {"class": "app", "ops": ops, "own_dispatcher": own, "config_listeners": cl}
     n = w.randint(1, 40)
     p_fault = w.pick([0.0, 0.05, 0.15, 0.3])
     p_stop = w.pick([0.0, 0.1, 0.3])
@@ -178,7 +182,35 @@ def _execute_app(sc):
         from clikit.api.event import EventDispatcher
         config.set_event_dispatcher(EventDispatcher())
         res.probe("own_empty_dispatcher_installed")
-    app = ConsoleApplication(config)
+    built = []
+    for j, (prio, b) in enumerate(sc.get("config_listeners") or []):
+        def on_config(event, event_name, dispatcher, _j=j, _b=b):
+            built.append((_j, event_name, event.config is config))
+            if _b == "stop":
+                event.stop_propagation()
+        from clikit.api.event import CONFIG
+        config.add_event_listener(CONFIG, on_config, prio)
+    # (a failure while the application is built is to surface here, not to be printed to the real stdout)
+    config.set_catch_exceptions(False)
+    try:
+        app = ConsoleApplication(config)
+    except Exception as e:
+        res.violate("op_raised", "application_built", "building the application with %d configuration listener(s) raised %s: %s" % (
+            len(sc.get("config_listeners") or []), type(e).__name__, e))
+        return res
+    finally:
+        config.set_catch_exceptions(True)
+    if sc.get("config_listeners"):
+        res.probe("config_event_listeners")
+        want_built = []
+        for j in sorted(range(len(sc["config_listeners"])), key=lambda j: (-sc["config_listeners"][j][0], j)):
+            want_built.append((j, "config", True))
+            if sc["config_listeners"][j][1] == "stop":
+                break
+        log.append(("built", list(built)))
+        if built != want_built:
+            res.violate("dispatch_sequence", "application_built", "building the application called the configuration listeners %r, expected %r" % (built, want_built))
+            return res
     names = [PRE_RESOLVE, PRE_HANDLE]
     # the default configuration registered one listener per event itself (priority 0, first):
     # -1 resolves the help command and stops when the line asks for help, -2 takes the command over
